@@ -7,4 +7,6 @@ require (
 	go.uber.org/zap v1.27.0
 )
 
+require go.uber.org/multierr v1.10.0 // indirect
+
 replace github.com/nspcc-dev/dbft => /repo
